@@ -23,7 +23,6 @@ TOP_LEVEL = {
     # public API
     f'{MG}:TransferManager._submit_transfer': 'called by the public upload/download/copy/delete methods only',
     f'{CRT}:CRTTransferManager._submit_transfer': 'called by the public upload/download/delete methods only',
-    f'{CRT}:S3ClientArgsCreator._get_make_request_args_get_object': 'reached through the assumed contract of get_make_request_args only',
 }
 
 
@@ -43,6 +42,8 @@ def register(R):
     setm(f'{UT}:set_default_checksum_algorithm', lambda c: map_locs(c.a_extra_args))
     setm(f'{BW}:BandwidthLimitedStream._consume_through_leaky_bucket', lambda c: [('f', c.self, '_bytes_seen')])
     setm(f'{PP}:ProcessPoolDownloader._shutdown', lambda c: [('f', c.self, '_started')])
+    # path downloads append their rename handler to the request's before-list
+    setm(f'{CRT}:S3ClientArgsCreator._get_make_request_args_get_object', lambda c: [('i', c.a_on_done_before_calls)])
 
     # upload submission: consumes the source stream / the probe buffer, rewrites checksum arguments of the user's map
     def up_mod(c):
